@@ -1,12 +1,23 @@
 #!/bin/bash
-# usage: run_seed.sh <seed-name> <prop> [prop...]: applies /verif/seeded/<name>/patch.diff to /repo, runs the quick checks, restores /repo
+# usage: run_seed.sh <seed-name> <prop> [prop...]
+# Runs the quick checks against the seeded change. Default: in a scratch worktree of /repo
+# (VERIF_REPO), so /repo itself is never touched. With SEED_IN_REPO=1 the patch is applied to
+# /repo's working tree instead and undone afterwards (git -C /repo checkout -- .).
 name=$1; shift
 cd /verif
-git -C /repo diff --quiet || { echo "/repo is dirty"; exit 2; }
-git -C /repo apply /verif/seeded/$name/patch.diff || { echo "patch failed"; exit 2; }
-trap 'git -C /repo checkout -- . ; rm -rf /tmp/seed_ev' EXIT
+if [ "${SEED_IN_REPO:-0}" = 1 ]; then
+  git -C /repo diff --quiet || { echo "/repo is dirty"; exit 2; }
+  git -C /repo apply /verif/seeded/$name/patch.diff || { echo "patch failed"; exit 2; }
+  trap 'git -C /repo checkout -- . ; rm -rf /tmp/seed_ev_$name' EXIT
+  R=/repo
+else
+  R=/tmp/seedwt_$name; rm -rf $R; git -C /repo worktree prune
+  git -C /repo worktree add --detach $R HEAD >/dev/null 2>&1 || { echo "worktree failed"; exit 2; }
+  trap 'git -C /repo worktree remove --force $R >/dev/null 2>&1; rm -rf /tmp/seed_ev_$name' EXIT
+  git -C $R apply /verif/seeded/$name/patch.diff || { echo "patch failed"; exit 2; }
+fi
 for p in "$@"; do
   echo "=== seed $name vs $p"
-  VERIF_EVIDENCE_DIR=/tmp/seed_ev ./check $p quick 2>&1 | grep -E "^VIOLATION|^  harness=|^property=|^KNOWN|inconclusive" | cut -c1-300
+  VERIF_REPO=$R VERIF_EVIDENCE_DIR=/tmp/seed_ev_$name ./check $p quick 2>&1 | grep -E "^VIOLATION|^  harness=|^property=|^KNOWN|inconclusive" | cut -c1-300
   echo "exit=${PIPESTATUS[0]}"
 done
